@@ -139,6 +139,14 @@ func c11FileName(fid uint16, inLDS bool) string {
 func c11Config(r *mrand.Rand, ci int) perso.Opts {
 	o := perso.Opts{DGs: []int{2, 11}, Digest: 2}
 	o.PKI.CertHash = 2
+	// order of the hash list in the security object (the reader reads the files in that order):
+	// every third configuration descending, every third shuffled
+	switch ci % 3 {
+	case 1:
+		o.SODOrder = perso.SODDescending
+	case 2:
+		o.SODOrder, o.SODOrderSeed = perso.SODShuffled, uint64(ci)
+	}
 	if c11IsOpen(ci) {
 		// personalised like a BAC chip (no EF.CardAccess); c11Run removes the access condition
 		o.Access = perso.BACOnly
